@@ -3,8 +3,26 @@ From Coq Require Import List String ZArith Bool.
 From AV Require Import Core.Json Deser.Model Deser.Spec Schema.Json Schema.Build Schema.Proofs.
 Import ListNotations.
 
-(* placeholder while the development is being built: a literal schema accepts exactly the listed values *)
+(* a Literal / Enum schema accepts exactly the listed values (on the common domain: no integer-valued float) *)
 Theorem C06_literal_schema : forall vs d, in_domain d = true ->
   jvalid false [] 0 (literal_schema vs) d = existsb (fun p => json_eq (prim_data p) d) vs.
 Proof. exact literal_schema_valid. Qed.
 Print Assumptions C06_literal_schema.
+
+(* the schema built for a union (SchemaBuilder._visited_union: single alternative, Any absorbing, merged "type" lists with
+   integer dropped next to number, null merged into a typed schema without const / enum, anyOf otherwise) accepts exactly
+   the data accepted by the schema of one of the alternatives - for any definitions, fuel and alternatives of the shapes
+   the builder produces *)
+Theorem C06_union_schema_is_the_disjunction : forall ss ds fuel rs d,
+  rs <> [] ->
+  (forall r, In r rs -> get_type r <> None -> typed_shape r = true) ->
+  jvalid ss ds fuel (visited_union rs) d = existsb (fun r => jvalid ss ds fuel r d) rs.
+Proof. exact visited_union_valid. Qed.
+Print Assumptions C06_union_schema_is_the_disjunction.
+
+(* the merge used before the fix 'schema of Optional[Literal/Enum] accepts null' is refuted *)
+Theorem C06_old_optional_merge_refuted :
+  exists a b d, typed_shape a = true /\ typed_shape b = true /\
+    jvalid false [] 0 (old_optional_merge a b) d <> (jvalid false [] 0 a d || jvalid false [] 0 b d).
+Proof. exact old_optional_merge_refuted. Qed.
+Print Assumptions C06_old_optional_merge_refuted.
